@@ -349,3 +349,24 @@ class SMIO(GameIO):
 
 def _clean(s) -> bool:
     return isinstance(s, str) and not any(ch in s for ch in ":;#\n\r") and "//" not in s and s == s.strip()
+
+
+def _sm_pipeline_valid(self, doc, c) -> str:
+    for b, _ in doc["bpms"]:
+        if float(b) % 4:
+            return "tempo change off a measure line"
+    if c.get("t0_zero") and float(doc["offset"]) != 0:
+        return "#OFFSET not 0"
+    for ch in doc["charts"]:
+        keys = ref_sm.CHART_KEYS.get(ch["type"])
+        if keys not in c.get("keys", [keys]):
+            return "key count"
+        rows = [r for m in ch["measures"] for r in m]
+        if any(set(r) - set("0123") for r in rows):
+            return "symbols other than taps and holds"
+        if not any(r[keys - 1] != "0" for r in rows if len(r) == keys):
+            return "last column unused"
+    return ""
+
+
+SMIO.valid_pipeline_doc = _sm_pipeline_valid
